@@ -437,6 +437,18 @@ def exact_queries(cs, rs, nodes, rho_g, phi_g, pairs, Minv, rho_at=None):
     return qs
 
 
+def z_structure(nprng, fac):
+    """per (mode, z) factor: within a mode, z slices with a complex right-hand side are followed by purely real, purely imaginary and
+    identically zero ones (helical modes, z-localised perturbations): every slice is solved on its own"""
+    kind = nprng.randint(0, 4, size=fac.shape)      # 0 complex, 1 real, 2 zero, 3 imaginary
+    kind[:, 0] = 0
+    out = np.array(fac, dtype=complex)
+    out[kind == 1] = out[kind == 1].real
+    out[kind == 2] = 0.0
+    out[kind == 3] = 1j * out[kind == 3].imag
+    return out
+
+
 def one_case(chk, drv, it, stats):
     rng = chk.rng
     cs = build_case(chk, rng, it)
@@ -484,12 +496,12 @@ def one_case(chk, drv, it, stats):
             P = P * np.poly1d(nprng.uniform(0.5, 1.5, size=rest + 1))
             cA, cB, cC, cD, cE = [float(f(1.0)) for f in fns]
             rho_pol = {m: (cA * P.deriv(2) + cB * P.deriv(1) + cC * P - (m * m * cD) * P) / cE for m in set(mv)}
-            fac = nprng.uniform(-1, 1, size=(N, nz)) + 1j * nprng.uniform(-1, 1, size=(N, nz))
+            fac = z_structure(nprng, nprng.uniform(-1, 1, size=(N, nz)) + 1j * nprng.uniform(-1, 1, size=(N, nz)))
             if cs['func_rhs']:
                 fac = np.ones((N, nz), complex)
                 if len(set(m * m for m in mv)) > 1 and cD != 0:
                     cs['func_rhs'] = False   # a function right-hand side is the same for all modes
-                    fac = nprng.uniform(-1, 1, size=(N, nz)) + 1j * nprng.uniform(-1, 1, size=(N, nz))
+                    fac = z_structure(nprng, nprng.uniform(-1, 1, size=(N, nz)) + 1j * nprng.uniform(-1, 1, size=(N, nz)))
             rho_g = np.array([[fac[I, z] * rho_pol[mv[I]](nodes) for z in range(nz)] for I in range(N)])
             phi_star = np.array([[fac[I, z] * P(nodes) for z in range(nz)] for I in range(N)])
             if cs['func_rhs']:
@@ -497,6 +509,7 @@ def one_case(chk, drv, it, stats):
                 rho_func = lambda r: rp(r)  # noqa: E731
     if not cs['manufactured']:
         rho_g = nprng.uniform(-1, 1, size=(N, nz, nr)) + 1j * nprng.uniform(-1, 1, size=(N, nz, nr))
+        rho_g = rho_g * z_structure(nprng, np.ones((N, nz), complex))[:, :, None]
         if cs['func_rhs']:
             kf = nprng.uniform(0.2, 1.5)
             rho_func = lambda r: np.cos(kf * r) + 0.25 * r  # noqa: E731
